@@ -68,6 +68,37 @@ def pick_version(toks, ver, have_v4=True):
     return out
 
 
+def make_entry_state_table(mpq):
+    """returns f(cond) -> {"occupied": bool, "deleted": bool, "never-used": bool} (or None if cond is not a pure predicate on
+    the entry's state): HashEntry::is_xxx() calls are replaced by their bodies, then the condition is evaluated for the
+    three kinds of hash entry (a finite domain: block_index < DELETED, == DELETED, == NEVER_USED)"""
+    from .c10 import _bval, _NoEval
+    he_methods = {norm(f.path).split("::")[-1]: f for f in mpq.fn_list if f.hir and f.kind != "Closure" and norm(f.path).startswith(M + "tables::hash::HashEntry::")}
+    KINDS = {"occupied": 5, "deleted": ref.CONSTANTS["HashEntry::EMPTY_DELETED"], "never-used": ref.CONSTANTS["HashEntry::EMPTY_NEVER_USED"]}
+
+    def expand(n, depth=0):
+        if isinstance(n, list):
+            return [expand(x, depth) for x in n]
+        if not isinstance(n, dict):
+            return n
+        if n.get("k") == "mcall" and n["m"] in he_methods and not n.get("args") and depth < 3 and (n.get("fn") or "").endswith("HashEntry::" + n["m"]):
+            body = he_methods[n["m"]].hir["body"]
+            return expand(hirq.subst(hirq.strip(body), {"self": n["recv"]}), depth + 1)
+        return {k_: expand(v_, depth) for k_, v_ in n.items()}
+
+    def table(cond):
+        tab = {}
+        try:
+            for kind, v in KINDS.items():
+                env = {"__leaf__": (lambda r_, v=v: v if r_.endswith("block_index") else {"EMPTY_DELETED": KINDS["deleted"], "EMPTY_NEVER_USED": KINDS["never-used"]}.get(r_))}
+                tab[kind] = _bval(expand(cond), env, {})
+        except _NoEval:
+            return None
+        return tab
+    table.expand = expand
+    return table
+
+
 def run(ctx):
     prog = ctx.prog
     mpq = prog.crate("wow_mpq")
@@ -298,19 +329,7 @@ def run(ctx):
     # lookups: a deleted entry is skipped, only a never-used entry ends the search (decided over the three kinds of entry)
     R_del = ctx.rule("C02.lookup-stops-only-at-never-used", "in the lookup probe loops the not-found exit taken on an entry's state is true for a never-used entry and false for a deleted or occupied one", floor=2)
     from .c10 import _bval, _NoEval
-    he_methods = {norm(f.path).split("::")[-1]: f for f in mpq.fn_list if f.hir and f.kind != "Closure" and norm(f.path).startswith(M + "tables::hash::HashEntry::")}
-    KINDS = {"occupied": 5, "deleted": ref.CONSTANTS["HashEntry::EMPTY_DELETED"], "never-used": ref.CONSTANTS["HashEntry::EMPTY_NEVER_USED"]}
-
-    def expand_entry_preds(n, depth=0):
-        """replace `e.is_xxx()` on a hash entry by the body of HashEntry::is_xxx with `self` := e"""
-        if isinstance(n, list):
-            return [expand_entry_preds(x, depth) for x in n]
-        if not isinstance(n, dict):
-            return n
-        if n.get("k") == "mcall" and n["m"] in he_methods and not n.get("args") and depth < 3 and (n.get("fn") or "").endswith("HashEntry::" + n["m"]):
-            body = he_methods[n["m"]].hir["body"]
-            return expand_entry_preds(hirq.subst(hirq.strip(body), {"self": n["recv"]}), depth + 1)
-        return {k_: expand_entry_preds(v_, depth) for k_, v_ in n.items()}
+    entry_state_table = make_entry_state_table(mpq)
     for path in ("tables::hash::HashTable::find_file", "modification::MutableArchive::find_file_entry"):
         f = fns.get(M + path)
         if f is None:
@@ -321,14 +340,12 @@ def run(ctx):
         for lp in hirq.find(f.hir["body"], "loop"):
             for n in hirq.find(lp["body"], "if"):
                 then_ret_none = any(x.get("k") == "ret" and re.search(r"None", hirq.render(x.get("e"))) for x in hirq.walk(n["then"]))
-                if not then_ret_none or "block_index" not in hirq.render(expand_entry_preds(n["c"])):
+                if not then_ret_none:
                     continue
-                tab = {}
-                try:
-                    for kind, v in KINDS.items():
-                        env = {"__leaf__": (lambda r_, v=v: v if r_.endswith("block_index") else {"EMPTY_DELETED": KINDS["deleted"], "EMPTY_NEVER_USED": KINDS["never-used"]}.get(r_))}
-                        tab[kind] = _bval(expand_entry_preds(n["c"]), env, {})
-                except _NoEval:
+                if "block_index" not in hirq.render(entry_state_table.expand(n["c"])):
+                    continue
+                tab = entry_state_table(n["c"])
+                if tab is None:
                     continue
                 n_dec += 1
                 key = "%s|not-found-exit" % path.split("::")[-1]
